@@ -26,11 +26,14 @@ pub fn top_boxes(d: &[u8]) -> Vec<(String, usize, usize, usize)> {
 }
 
 /// rewrite every mdat box with a large-size (16-byte) or standard (8-byte) header
-fn with_header(d: &[u8], large: bool) -> Vec<u8> {
+fn with_header(d: &[u8], large: bool) -> Vec<u8> { with_header_len(d, large, None) }
+/// the same, with the mdat payload cut down to `keep` bytes
+fn with_header_len(d: &[u8], large: bool, keep: Option<usize>) -> Vec<u8> {
     let mut out = vec![];
     for (t, off, hl, size) in top_boxes(d) {
         if t == "mdat" {
             let payload = &d[off + hl..off + size];
+            let payload = match keep { Some(k) if k <= payload.len() => &payload[..k], _ => payload };
             if large {
                 out.extend_from_slice(&1u32.to_be_bytes());
                 out.extend_from_slice(b"mdat");
@@ -147,15 +150,21 @@ pub fn record(args: &[String]) {
     let mut rng = StdRng::seed_from_u64(seed ^ 0xC17);
     let src0 = fixture("video1_no_manifest.mp4");
     let mut out = Out::new();
-    for large in [false, true] {
-        let src = with_header(&src0, large);
+    // the whole payload of the fixture, and payloads cut so that the hashed part is an exact multiple of the fixed leaf size
+    // (or one byte more / less, or exactly one leaf)
+    let covered: Vec<Option<usize>> = if thorough { vec![None, Some(8192), Some(8193), Some(8191), Some(1024), Some(65536), Some(2048)] } else { vec![None, Some(8192), Some(8193), Some(1024)] };
+    for (large, cov) in [false, true].into_iter().flat_map(|l| covered.iter().map(move |c| (l, *c))) {
+        let skip0 = if large { 0 } else { 8 };
+        let src = with_header_len(&src0, large, cov.map(|c| c + skip0));
         let payload_len: usize = top_boxes(&src).iter().filter(|x| x.0 == "mdat").map(|x| x.3 - x.2).next().unwrap();
         let leafs: Vec<usize> = if thorough { vec![0, 1, 64] } else { vec![0, 1] };
         for leaf_kb in leafs {
+            if cov.is_some() && leaf_kb == 64 && cov != Some(65536) { continue; }
             let mut chunkings: Vec<Vec<usize>> = vec![vec![payload_len]];
-            let firsts: Vec<usize> = if thorough { (0..=32).collect() } else { vec![0, 1, 7, 8, 9, 15, 16, 17, 32] };
+            let firsts: Vec<usize> = if cov.is_some() { vec![0, 8, 100, 1032] } else if thorough { (0..=32).collect() } else { vec![0, 1, 7, 8, 9, 15, 16, 17, 32] };
             for &c1 in &firsts {
-                let seconds: Vec<usize> = if thorough { vec![0, 1, 7, 8, 9, 16, 1023, 1024, 1025] } else { vec![0, 8, 1024] };
+                let seconds: Vec<usize> = if cov.is_some() { vec![0, 1024] } else if thorough { vec![0, 1, 7, 8, 9, 16, 1023, 1024, 1025] } else { vec![0, 8, 1024] };
+                if c1 + seconds.iter().max().unwrap() > payload_len { continue; }
                 for &c2 in &seconds {
                     let rest = payload_len - c1 - c2;
                     let k = rng.gen_range(1..4);
